@@ -460,7 +460,9 @@ class SymX:
             free_prefix = idx + 1
         if simple:
             for c in limbs:
-                if c not in self.const and c not in self.terms:
+                if c in self.const:
+                    continue            # constant limbs keep their constant term
+                if c not in self.terms:
                     self.collapsed.add(c)
                 self.terms.setdefault(c, T.boolean(z3.BoolVal(False)))  # not referenced elsewhere
             if free_prefix == 0:
@@ -728,9 +730,10 @@ class SymX:
         """t and t2 are two definitions of one wire class; if one is a pure positional hint expression,
         the other is the value the hints must decompose (defining equation for Skolemisation)"""
         h2, h1 = self.hexpr.get(self._hkey(t2)), self.hexpr.get(self._hkey(t))
-        if h2 is not None and h1 is None:
+        if h2 is not None:
+            # (also when both are hint expressions: the chosen definition plays the role of the value)
             self.skolems.append((h2, t.as_int()))
-        elif h1 is not None and h2 is None:
+        elif h1 is not None:
             self.skolems.append((h1, t2.as_int()))
 
     def skolem_facts(self):
@@ -740,24 +743,25 @@ class SymX:
         0 <= E < 2^width, so adding it is a total definition provided the 'fits' obligation holds.
         Returns (facts, fits_obligations, vars_done)."""
         facts, fits, done = [], [], set()
+        self.skolem_groups = []     # per group: its own facts (so a group's fit can be proved from the OTHER groups)
         for he, E in self.skolems:
             if any(v.get_id() in done for (v, _, _, _) in he):
                 continue
             width = max(off + bits for (_, off, bits, _) in he)
-            terms = []
+            terms, own = [], []
             for (v, off, bits, isb) in he:
                 done.add(v.get_id())
                 if isb:
                     terms.append(z3.If(v, z3.IntVal(1 << off), z3.IntVal(0)))
                 else:
                     terms.append(v * (1 << off))
-                    facts.append(z3.And(v >= 0, v < (1 << bits)))
+                    own.append(z3.And(v >= 0, v < (1 << bits)))
             covered = sum(((1 << bits) - 1) << off for (_, off, bits, _) in he)
-            facts.append(E == z3.Sum(terms))
-            if covered == (1 << width) - 1:
-                fits.append(z3.And(E >= 0, E < (1 << width)))
-            else:
-                fits.append(None)   # digits with gaps: totality not claimed for this group
+            own.append(E == z3.Sum(terms))
+            facts += own
+            fit = z3.And(E >= 0, E < (1 << width)) if covered == (1 << width) - 1 else None
+            fits.append(fit)
+            self.skolem_groups.append((own, fit))
         return facts, fits, done
 
     def named(self, n):
